@@ -51,7 +51,7 @@ Print Assumptions C13_register_refusals.
 Theorem C13_owner_after_destroy : forall w i k, is_created w i = false -> unregister_cb false w i k = Ok w.
 Proof. intros w i k H. unfold unregister_cb, is_created in *. rewrite H. reflexivity. Qed.
 
-Theorem C13_move_assign_partial :
+Theorem C13_move_assign_after_fix :
   exists w xs, wrun true (world_init 1 4 2) [WCreate 0 true; WRegister 0 0 77; WRegister 1 0 78; WMoveAssign 0 1; WRegister 1 0 77] = Ok (w, xs) /\
     reachable w 0%nat = [77; 78] /\ owned_keys (owns w) 0 = [78; 77].
 Proof. exact move_assign_releases_after_fix. Qed.
